@@ -32,6 +32,7 @@ RULE = ("cases = (dataset, 1-3 shared variables, pool of 2-4 queries, history of
         "sharing a variable with it whose result is a non-empty proper subset of the product; distinct = canonical JSON.")
 BUDGET = {"quick": (4, 300), "thorough": (16, 1200)}
 ASSUMPTIONS = ["two live result iterators over the same variables are never interleaved (take k, then close/drop)",
+               "a condition object is shared only between queries that select the same variables (and contains no negation)",
                "the fault is raised by user code (a @predicate function); nothing is asserted about its propagation, only "
                "about what later evaluations return"]
 
@@ -86,6 +87,12 @@ def _history(draw, tier):
             j = draw(st.sampled_from(donors))
             spec["cond"] = pool[j]["cond"]
             spec["split_top"] = pool[j]["split_top"]
+            # ... and select the same variables: the engine memoises, per expression node, which variables its
+            # enclosing query needs, so one condition object inside two queries with DIFFERENT selections is not a
+            # supported input (nothing documents it); the same selection under another quantifier is
+            spec["sel"] = pool[j]["sel"]
+            spec["desc"] = pool[j]["desc"]
+            spec["quant"] = "the" if pool[j]["quant"] == "an" else "an"
             spec["share_with"] = j
         pool.append(spec)
     ops = []
